@@ -83,3 +83,23 @@ Theorem C26_ok_accepts_etcd_model_bounded :
   forallb (fun ops => orb (negb (ew_legal (e_start, None) ops)) (ok_on_model BEtcdW (1%Z :: 1%Z :: nil) ops)) (schedules 5) = true.
 Proof. exact ok_sound_on_etcd_model_bounded. Qed.
 Print Assumptions C26_ok_accepts_etcd_model_bounded.
+
+(* the registrants named by the property — service registration
+   (calcium.RegisterService) and the active node-status watcher (selfmon.run /
+   withActiveLock) — are client loops over StartEphemeral: in any of the three
+   loops, for any number of registrants and any schedule of start / lapse / tick /
+   stop, across restarts and re-registrations, at most one registrant believes it
+   holds the key with a live lease, and the key carries its lease *)
+Theorem C26_etcd_loops_exclusive : forall mode obsf ttls ops s i j a b,
+  s = fst (w_state mode obsf (run_skip estep esys_init (map GNew ttls), None) ops) ->
+  nth_error (es_rs s) i = Some a -> nth_error (es_rs s) j = Some b ->
+  e_holds s a = true -> e_holds s b = true ->
+  i = j /\ e_owner_lease s = Some (g_lease a).
+Proof. exact etcd_loops_exclusive. Qed.
+Print Assumptions C26_etcd_loops_exclusive.
+
+Theorem C26_ok_accepts_etcd_loops_bounded :
+  forallb (fun ops => orb (negb (er_legal WRun e_obs2 (e_start, None) ops)) (ok_on_model BEtcdR (1%Z :: 1%Z :: nil) ops)) (schedules 5) = true /\
+  forallb (fun ops => orb (negb (er_legal WService e_obs2 (e_start, None) ops)) (ok_on_model BEtcdS (1%Z :: 1%Z :: nil) ops)) (schedules 5) = true.
+Proof. exact ok_sound_on_etcd_loops_bounded. Qed.
+Print Assumptions C26_ok_accepts_etcd_loops_bounded.
